@@ -199,3 +199,11 @@ func (Failures) Gen(c *Ctx) []Tx {
 	}
 	return out
 }
+
+func init() {
+	Register(Send{})
+	Register(SendPool{})
+	Register(Staking{})
+	Register(NetDeleg{})
+	Register(OlvmTransfer{})
+}
